@@ -19,7 +19,7 @@ unsigned int mv_cnt_str;     /* ghost: items in the PR_NAME_REMOVED_DATAITEMS st
 unsigned int mv_cnt_msg;     /* ghost: sub-Messages in the field the iterator currently points at */
 unsigned int mv_iter_left;   /* ghost: field names the iterator still has to visit */
 struct String *mv_fname;     /* ghost: the iterator's current field name */
-struct String mv_some_string; struct Message mv_some_msg; struct Queue_Ref_Message mv_oq; struct AbstractMessageIOGateway mv_gw; struct Ref_Message mv_ref;
+struct String mv_some_string; struct String mv_fname_obj; struct Message mv_some_msg; struct Queue_Ref_Message mv_oq; struct AbstractMessageIOGateway mv_gw; struct Ref_Message mv_ref;
 int mv_last;                 /* ghost: last valid index of the outgoing queue */
 
 struct Ref_AbstractMessageIOGateway *%(GetGateway)s(struct AbstractReflectSession *this)
@@ -35,7 +35,8 @@ __CPROVER_requires(1) __CPROVER_assigns() __CPROVER_ensures(__CPROVER_return_val
 /* every queued reply is a fresh look: its field sizes are arbitrary */
 struct Message *%(GetItemPointer)s(struct Ref_Message *this)
 __CPROVER_requires(1) __CPROVER_assigns(mv_cnt_str, mv_cnt_msg, mv_iter_left)
-__CPROVER_ensures(__CPROVER_return_value == (struct Message *)0 || __CPROVER_return_value == &mv_some_msg);
+/* (a Message holds fewer than 2^31 items per field) */
+__CPROVER_ensures((__CPROVER_return_value == (struct Message *)0 || __CPROVER_return_value == &mv_some_msg) && mv_cnt_str < 0x7fffffffu && mv_cnt_msg < 0x7fffffffu);
 struct status_t %(RemoveItemAt)s(struct Queue_Ref_Message *this, unsigned int index)
 __CPROVER_requires(1) __CPROVER_assigns() __CPROVER_ensures(1);
 /* FindString(name, i, &out): succeeds iff i is a valid item index of that field */
@@ -150,7 +151,7 @@ def jobs(tier):
     missing = [v for v in NAMES.values() if v + '(' not in hdr]
     if missing:
         raise cxx2c.Unsupported('opaque collaborator(s) no longer called by JettisonOutgoingResults (contract has no subject): %s' % missing)
-    har = '\nvoid h_main(void) { unsigned int a_, b_, c_; int l_; struct String *f_; mv_cnt_str = a_; mv_cnt_msg = b_; mv_iter_left = c_; mv_last = l_; mv_fname = f_;\n  struct StorageReflectSession *s; struct StorageReflectSession_NodePathMatcher *m; %s(s, m); %s }\n' % (FN, END)
+    har = '\nvoid h_main(void) { unsigned int a_, b_, c_; int l_; mv_cnt_str = a_; mv_cnt_msg = b_; mv_iter_left = c_; mv_last = l_; mv_fname = &mv_fname_obj;   /* the iterator's current name is an object of its own, not one of the handler's temporaries */\n  struct StorageReflectSession *s; struct StorageReflectSession_NodePathMatcher *m; %s(s, m); %s }\n' % (FN, END)
     tu = hdr + PRE % NAMES + '\n' + body + har
     repl = [v for k, v in NAMES.items() if k != 'FN']
     return [Job('srs_JettisonOutgoingResults', tu, 'h_main', enforce=[FN], replace=repl, loops=True, klass='proved', expect_loop_contracts=8,
